@@ -560,6 +560,17 @@ Definition run_call (f : op_fact) (token : string) (a : list string) (n : list (
     (script : list reply) (final : reply) : call_obs :=
   run_call_env f token a n (env_of script final).
 
+(* a sequence of operations on ONE client instance: httpCall builds every request from the method's own arguments
+   and the immutable fields of the client (URL, token, user agent); nothing a request sets is kept.  (The only
+   mutable state of the client, the cached account of GetPulumiAccountDetails, is not in the model: the model describes
+   the first call of that method.) *)
+Record op_call := mk_call { oc_fact : op_fact; oc_args : list string; oc_nums : list (option Z); oc_env : nat -> reply }.
+
+Definition run_op (token : string) (c : op_call) : call_obs :=
+  run_call_env (oc_fact c) token (oc_args c) (oc_nums c) (oc_env c).
+
+Definition run_sequence (token : string) (l : list op_call) : list call_obs := map (run_op token) l.
+
 Fixpoint find_op (name : string) (l : list op_fact) : option op_fact :=
   match l with
   | [] => None
